@@ -36,6 +36,12 @@ CHECKS = {
         design="3/C05",
         technique="Lean 4 proof (mutual structural induction on nested types, list lemmas) + end-to-end model/code correspondence on compiled functions",
     ),
+    "C07": dict(
+        text="Lean 4 theorems about the model of the call mechanism (Env.bind_function, the Known-function branch of translate_expression, oraclize's handling of the callee) on definition lists, for every well-formed callee (single assignment, closed over its argument bits, return bits last), every list of actual argument bit expressions of the callee's shape (any expressions: variables, tuple elements, repeated, swapped, results of other calls) and every caller environment: the substitution lemma for BExp (subst_lemma), the exact meaning of sympy's sequential subs and its agreement with simultaneous substitution when no image mentions a key (seq_eq_sim, with a witness when one does), alpha-renaming (rename_prefixed, rename_disjoint under the decidable noPrefixClash, rename_sem, rename_seq_agrees), the compression loop (bind_sem), and call_composition / C07_full: the call succeeds, its result bits evaluate to the callee's meaning on the values of the actuals and mention only symbols of the actuals, and the callee is unchanged. The model of the code as it is (four quirk flags) violates the statement on concrete inputs (four _witness theorems); the harness searches (callee, caller) pairs over all argument shapes, inline FunctionDef, callee chains and oraclize wrappers against the executed Python sources on all inputs, and replays every logged bind_function / call through the model.",
+        note="Partial in two ways. (1) The theorems are about the call mechanism on definition lists; the translation of the rest of the caller (statements, operators, typing) is C01's subject and is covered here only by end-to-end truth tables against the executed Python sources. (2) For the code as it is (3 open findings; a fourth was fixed in /repo by 7e03097) only component-level agreement lemmas are proved (seq_eq_sim, rename_seq_agrees), not one combined C07_partial theorem; index-from-name agreement is measured per case by the harness (counterfactual model runs). Trusted: Lean kernel (axioms audited per run), the correspondence harness (sympy's constructors as canonicaliser, truth tables as fallback), sympy's subs/xreplace re-canonicalisation preserving eval (checked per logged operation), the iteration order of e.free_symbols as logged from the real run, PYTHONHASHSEED=0 set by ./check.",
+        design="3/C07",
+        technique="Lean 4 proof (mutual structural induction on BExp, loop invariant of the compression, list lemmas) + logged-operation model/code correspondence + exhaustive-input Python oracle on generated (callee, caller) pairs",
+    ),
     "C09": dict(
         text="Lean 4 theorems over all widths (Qint w, Qchar, Qfixed I/F) and all nested types: pattern and value round trips, const = runtime encoding, one-hot amplitude index, interpret_as_qtype inverts concatenated encodings; side conditions discharged on the type tables regenerated from qint.py/qfixed.py/qchar.py on every run; model tied to the code by exhaustive comparison over every shipped type x every bit pattern (w<=12) plus sampled Qint16 and nested types.",
         note="Trusted: Lean kernel (axioms propext, Classical.choice, Quot.sound only, audited per run), the ast-based table extractor, the correspondence harness, CPython float arithmetic being exact on dyadic rationals < 2^11. The theorems are about QV/Model/Types.lean, not the Python text.",
